@@ -11,6 +11,7 @@ import operator
 import os
 import random
 from decimal import Decimal
+from fractions import Fraction
 
 from harness import tlc as T, progs
 from harness.dslgen import word, NotGenerated
@@ -30,7 +31,7 @@ RAWS = [0, 1, -1, 29000, 100000, 99999, 100001, 350000, -29000, 12345678, 2 ** 3
 INTS = [0, 1, -1, 2, 3, 7, -7, 100000, 2 ** 31, 2 ** 40, 12]
 
 
-def build(op, lk, rk, dstfixed, lc, rc):
+def build(op, lk, rk, dstfixed, lc, rc, use_kernel=False):
     """lk / rk operand kinds; lc / rc the constant (int or decimal string) when the kind is a constant"""
     from ebpfcat.xdp import XDP, XDPExitCode
     from ebpfcat.arraymap import ArrayMap
@@ -72,12 +73,33 @@ def build(op, lk, rk, dstfixed, lc, rc):
         self.exit(XDPExitCode.PASS)
     ns["program"] = program
     try:
-        b = progs.build(type("Fx", (XDP,), ns), use_kernel=False)
+        b = progs.build(type("Fx", (XDP,), ns), use_kernel=use_kernel)
     except NotGenerated:
         raise
     except Exception as ex:
         raise NotGenerated(f"{type(ex).__name__}: {ex}")
     return b
+
+
+def py_side(inst, vs):
+    """the instance as user space sees it once the program is loaded: variables read and written through the real
+    descriptors (ArrayGlobalVarDesc.__set__ / unpack) over a plain buffer standing for the mapped array"""
+    inst.loaded = True
+    inst.__dict__["m"] = bytearray(vs)
+    return inst
+
+
+def py_store(inst, var, raw):
+    """assign the decimal raw / 100000 from Python, as the float a user would write; returns the 8 stored bytes"""
+    off = inst.__dict__[var]
+    setattr(inst, var, float(Decimal(raw) / 100000))
+    return bytes(inst.__dict__["m"][off:off + 8])
+
+
+def py_read(inst, var, raw8):
+    off = inst.__dict__[var]
+    inst.__dict__["m"][off:off + 8] = bytes(raw8)
+    return getattr(inst, var)
 
 
 def operand_rec(kind, inst, var, const):
@@ -90,8 +112,7 @@ def operand_rec(kind, inst, var, const):
     return dict(kind="fconst", v=word(int(Decimal(const) * 100000), N))
 
 
-def run(ctx):
-    fixed = random.Random(202)
+def shapes_of(quick):
     shapes = []
     k = 0
     for op in list(ARITH) + list(CMP):
@@ -105,15 +126,23 @@ def run(ctx):
                     continue
             k += 1
             for dstfixed in ((True, False) if op in ARITH else (False,)):
+                # quick tier: half of the statements, alternating so that every operator meets both kinds of
+                # destination and every pair of operand kinds
+                if quick and (k + dstfixed) % 2:
+                    continue
                 lc = (ICONSTS[k % len(ICONSTS)] if lk == "iconst" else FCONSTS[k % len(FCONSTS)])
                 rc = (ICONSTS[(k * 3 + 1) % len(ICONSTS)] if rk == "iconst" else FCONSTS[(k * 5 + 2) % len(FCONSTS)])
                 if op in ("truediv", "floordiv", "mod") and rk == "iconst" and rc == 0:
                     rc = 3
                 shapes.append((op, lk, rk, dstfixed, lc, rc))
-    if ctx.quick:
-        shapes = shapes[::2]
+    return shapes
+
+
+def run(ctx):
+    shapes = shapes_of(ctx.quick)
     nvec = 5 if ctx.quick else 10
-    cases, meta, refused = [], [], []
+    cases, meta, refused, insts = [], [], [], []
+    pyset = pyread = 0
     vr = random.Random(9)
     for sh in shapes:
         op, lk, rk, dstfixed, lc, rc = sh
@@ -130,15 +159,25 @@ def run(ctx):
         while len(vecs) < nvec + (ctx.rng.random() < 0.2):
             vecs.append((vr.choice(RAWS if lk.startswith("fix") else INTS),
                          vr.choice(RAWS if rk.startswith("fix") else INTS)))
+        py_side(inst, vs)
         for va, vb in vecs:
             buf = bytearray(vs)
-            buf[inst.__dict__["la"]:inst.__dict__["la"] + 8] = bytes(word(va, 8))
-            buf[inst.__dict__["lb"]:inst.__dict__["lb"] + 8] = bytes(word(vb, 8))
+            lr, rr = dict(lrec), dict(rrec)
+            for var, v, kind, rec in (("la", va, lk, lr), ("lb", vb, rk, rr)):
+                off = inst.__dict__[var]
+                if kind.startswith("fix") and abs(v) < 2 ** 50:
+                    # assigned from Python through the real descriptor; the specification is told the exact value
+                    buf[off:off + 8] = py_store(inst, var, v)
+                    rec["want"] = word(v, N)
+                    pyset += 1
+                else:
+                    buf[off:off + 8] = bytes(word(v, 8))
             c = progs.case(b, arr={1: bytes(buf)})
-            c.update(op=op, l=lrec, r=rrec, dstfixed=dstfixed, dst=dict(fd=1, off=inst.__dict__["out"], size=8), n=N,
+            c.update(op=op, l=lr, r=rr, dstfixed=dstfixed, dst=dict(fd=1, off=inst.__dict__["out"], size=8), n=N,
                      marks=[dict(i=i, fd=1, off=inst.__dict__[f"mk{i}"]) for i in (1, 2, 3)],
                      ast=dict(k="const", v=word(0, N)), leaves=[])
             cases.append(c)
+            insts.append(inst)
             meta.append(dict(op=op, left=lk, right=rk, dstfixed=dstfixed, lconst=lc if lk.endswith("const") else None,
                              rconst=rc if rk.endswith("const") else None, va=va, vb=vb))
     if not cases:
@@ -172,6 +211,15 @@ def run(ctx):
         counts[kind] += 1
         ctx.traces += 1
         ctx.evaluated(tuple(sorted(m.items(), key=lambda x: x[0])) if False else repr(m), nontrivial=kind != "skipped")
+        if kind == "ok" and m["op"] in ARITH and m["dstfixed"]:
+            # the Python-side read back of the result: the float nearest to raw / 100000
+            raw = int.from_bytes(bytes(got), "little", signed=True)
+            back = py_read(insts[i - 1], "out", got)
+            pyread += 1
+            if back != float(Fraction(raw, 100000)):
+                ctx.case_failed(dict(m, verdict="wrong", status="python-side read back", observed=repr(back),
+                                     admissible=repr(float(Fraction(raw, 100000))), div_on_negative=False),
+                                f"raw {raw} read back from Python as {back!r}, not {float(Fraction(raw, 100000))!r}")
         if kind == "ok" and i % 397 == 5:
             ctx.sample(dict(m, verdict=kind, observed=got, admissible=expected))
         if kind in ("wrong", "fault"):
@@ -184,6 +232,6 @@ def run(ctx):
                 "operand kinds (8-byte integer / fixed-point variables and registers, integer constants, decimal "
                 "constants incl. 0.29, 0.1, 0.57, 1.15, 0.00001, 99999.99999), each on boundary and fixed-seed raw "
                 "values; non-trivial = inside the precondition")
-    ctx.extra.update(verdicts=counts, statements=len(shapes), refused=len(refused), refused_examples=[str(r)[:200] for r in refused[:6]])
+    ctx.extra.update(verdicts=counts, statements=len(shapes), refused=len(refused), python_side_stores=pyset, python_side_reads=pyread, refused_examples=[str(r)[:200] for r in refused[:6]])
     ctx.assumptions += ["every operand is 8 bytes wide, so the narrowest width involved is 64 bits",
                         "a decimal constant reaches the generator as float(decimal string), as a user would write it"]
